@@ -11,6 +11,7 @@ import numpy as np
 from hypothesis import strategies as st
 
 from ..runner import Sub, V
+from .. import refs
 
 PROPERTY_ID = "C10"
 RULE = ("operation histories over {get, slice, iter, append, extend, insert, pop, del, set, reverse, clear, "
@@ -131,6 +132,7 @@ NEGATIVE = {"append_other", "append_multi", "insert_other", "insert_multi", "set
 
 
 LOOSE_RUN = [False]
+CHECK_KW = {"SO2", "SE2", "SO3", "SE3", "Twist2", "Twist3", "Quaternion", "UnitQuaternion"}
 
 
 def check_case(case):
@@ -146,6 +148,7 @@ def check_case(case):
 
     kind, n = case["start"]
     feats = {"cls": name, "start": kind}
+    sibling = None
     if kind == "alloc":
         obj = cls.Alloc(n)
         model = [ident(name) for _ in range(n)]
@@ -171,12 +174,52 @@ def check_case(case):
         model = [elem(name, k) for k in range(n)]
         obj = cls(np.array([m.copy() for m in model]))
         model = [m.copy() for m in model]
+    elif kind in ("arrays_tuple", "arrays_nocheck", "arrays_tuple_nocheck", "arrays_check"):
+        # a list / tuple of element arrays, with the documented check option either way
+        if name not in CHECK_KW or n < 1:
+            return out
+        model = [elem(name, k) for k in range(n)]
+        container = [m.copy() for m in model]
+        if "tuple" in kind:
+            container = tuple(container)
+        kw = {"check": False} if "nocheck" in kind else ({"check": True} if kind == "arrays_check" else {})
+        obj = cls(container, **kw)
+        sibling = (cls(container, **kw), [m.copy() for m in model])
+        model = [m.copy() for m in model]
+    elif kind == "rows":
+        # vectorised constructors: one value per row / per angle
+        if name not in ("SE3", "SO3", "SO2") or n < 2:
+            return out
+        if name == "SE3" and n != 3:
+            rows = np.array([[k + 1.0, -0.5 * k, 2.0 + k] for k in range(n)])
+            obj = cls(rows)
+            model = [refs.rt(np.eye(3), r) for r in rows]
+        else:
+            th = [0.1 * (k + 1) for k in range(n)]
+            if name == "SE3":
+                obj, model = cls.Rx(th), [refs.rt(refs.rotx(t), [0, 0, 0]) for t in th]
+            elif name == "SO3":
+                obj, model = cls.Rz(np.array(th)), [refs.rotz(t) for t in th]
+            else:
+                obj, model = cls(th), [refs.rot2(t) for t in th]
+        LOOSE_RUN[0] = True       # values to rounding (1e-12), not bit-for-bit
     else:
         model = [elem(name, k) for k in range(n)]
         obj = make(name, model)
         model = [m.copy() for m in model]
     if not compare(name, obj, model, "start:" + kind, feats, out):
         return out
+    if sibling is not None:
+        try:
+            _check_case_ops(case, name, cls, obj, model, out, fresh, feats)
+        finally:
+            # an object built from the same container received no operation at all
+            compare(name, sibling[0], sibling[1], "sibling_of_same_container", {"cls": name, "start": kind}, out)
+        return out
+    return _check_case_ops(case, name, cls, obj, model, out, fresh, feats)
+
+
+def _check_case_ops(case, name, cls, obj, model, out, fresh, feats):
 
     shadows = []          # (object, frozen expected values): copies, slices and indexed results are independent lists
 
@@ -507,6 +550,7 @@ def machine_spec():
 def start_strategy():
     return st.one_of(st.tuples(st.just("alloc"), st.integers(0, 4)), st.tuples(st.just("list"), st.integers(1, 4)),
                      st.tuples(st.just("loose"), st.integers(1, 4)), st.tuples(st.just("array"), st.integers(2, 4)),
+                     st.tuples(st.sampled_from(["arrays_tuple", "arrays_nocheck", "arrays_tuple_nocheck", "arrays_check", "rows"]), st.integers(1, 4)),
                      st.just(("empty", 0)), st.just(("default", 1))).map(list)
 
 
@@ -561,6 +605,22 @@ def gen_sequences(tier):
                     continue
                 for seq in itertools.product(ALPHABET, repeat=L):
                     yield {"kind": "ops", "cls": name, "start": start, "ops": [list(o) for o in seq]}
+    # every single and every pair of operations from the other documented ways of building a multi-valued object
+    for name in sorted(CHECK_KW):
+        for kind in ("arrays_tuple", "arrays_nocheck", "arrays_tuple_nocheck", "arrays_check"):
+            for n in (1, 3):
+                for L in (1, 2):
+                    if L == 2 and name not in ("SE3", "Twist3", "UnitQuaternion"):
+                        continue
+                    for seq in itertools.product(ALPHABET, repeat=L):
+                        yield {"kind": "ops", "cls": name, "start": [kind, n], "ops": [list(o) for o in seq]}
+    for name in ("SE3", "SO3", "SO2"):
+        for n in (2, 3, 4):
+            for L in (1, 2):
+                if L == 2 and name != "SE3":
+                    continue
+                for seq in itertools.product(ALPHABET, repeat=L):
+                    yield {"kind": "ops", "cls": name, "start": ["rows", n], "ops": [list(o) for o in seq]}
     # every single and every pair of operations from the array-of-rows start state
     for n in (2, 3):
         for L in (1, 2):
